@@ -68,3 +68,10 @@ Proof. vm_compute. reflexivity. Qed.
 Example ex_checker_accepts :
   zcheck_step (oNeg, [Ca [M 2 1 [[1]; [2]]]], Ca [M 2 1 [[-1]; [-2]]]) = true.
 Proof. vm_compute. reflexivity. Qed.
+
+(* mode-2 product of a 2x1x3 array with a rectangular 2x3 matrix: new axis stays in position 2 *)
+Example ex_modek_value :
+  full_tab Z (full_tprod Z 0 Z.add Z.mul (modek_ops Z (mat_of Z 0 (M 2 3 [[1; 0; 2]; [0; 1; -1]])) 2)
+                         (full_of Z 0 ([2%nat; 1%nat; 3%nat], [1; 2; 3; 4; 5; 6])))
+  = ([2%nat; 1%nat; 2%nat], [7; -1; 16; -1]).
+Proof. vm_compute. reflexivity. Qed.
